@@ -32,7 +32,7 @@ TRUSTED = [
     'correspondence is differential testing: model = code only on the histories executed',
 ]
 ASSUMPTIONS = [
-    'classes Sub / Top / Plain below: Integer and list-valued parameters, sub-objects in ClassSelector parameters, '
+    'classes Sub / Top / Plain below: Integer and list-valued parameters, Selectors declared without objects (by value / by name), sub-objects in ClassSelector parameters, '
     'one-level dependencies depends("p") / depends("a.x") / depends("a.y", "b.y") with watch=True, explicit bound-method watchers',
     'deeper dependency paths (their parent-notification callback is a closure: not picklable), watchers with what != value, '
     'lambdas, references (allow_refs), async methods and class-level watchers are outside the model',
@@ -43,7 +43,7 @@ RULE = ('histories of object creation, sets, in-place mutations, per-instance Pa
         'both graphs at copy time and after every later operation, invocation logs with the side of every invoked object, '
         'and the same copy-side operations on a twin of the original. non-trivial = the copy succeeded, >=2 post operations, '
         'at least one watcher in the copied graph; distinct = distinct canonical case')
-COVERAGE_TARGETS = ['copy:ok', 'mech:deepcopy', 'mech:pickle2', 'mech:pickle3', 'mech:pickle4', 'mech:pickle5',
+COVERAGE_TARGETS = ['copy:ok', 'selector:set-after-copy', 'selector:named-after-copy', 'selector:own-copy-before-copy', 'mech:deepcopy', 'mech:pickle2', 'mech:pickle3', 'mech:pickle4', 'mech:pickle5',
                     'root:Top', 'root:Plain', 'root:Sub', 'pre:sub-attached-with-dependency', 'pre:sub-attached-no-dependency',
                     'pre:detached-again', 'pre:pedit', 'pre:attr', 'pre:explicit-watcher', 'pre:cross-object-watcher',
                     'post:orig', 'post:copy', 'post:attach-new-sub', 'post:log-nonempty']
@@ -69,6 +69,8 @@ class Top(param.Parameterized):
     b = param.ClassSelector(class_=Sub, default=None, allow_None=True)
     n = param.Integer(1, bounds=(0, 100))
     l = param.Parameter([1], instantiate=True)
+    choice = param.Selector()
+    named = param.Selector(objects={}, check_on_set=False)
 
     @param.depends('a.x', watch=True)
     def m(self):
@@ -90,6 +92,8 @@ class Plain(param.Parameterized):
     a = param.ClassSelector(class_=Sub, default=None, allow_None=True)
     n = param.Integer(1, bounds=(0, 100))
     l = param.Parameter([1], instantiate=True)
+    choice = param.Selector()
+    named = param.Selector(objects={}, check_on_set=False)
 
     @param.depends('n', watch=True)
     def k(self):
@@ -108,11 +112,15 @@ CLASSES = [
     {'name': 'Top', 'params': [{'name': 'a', 'default': None, 'inst': True, 'bounds': None},
                                {'name': 'b', 'default': None, 'inst': True, 'bounds': None},
                                {'name': 'n', 'default': 1, 'inst': False, 'bounds': [0, 100]},
-                               {'name': 'l', 'default': [1], 'inst': True, 'bounds': None}],
+                               {'name': 'l', 'default': [1], 'inst': True, 'bounds': None},
+                               {'name': 'choice', 'default': None, 'inst': False, 'bounds': None, 'sel': 'choice'},
+                               {'name': 'named', 'default': None, 'inst': False, 'bounds': None, 'sel': 'named'}],
      'methods': [{'name': 'm', 'deps': [['a', 'x']]}, {'name': 'k', 'deps': [['n']]}, {'name': 'mb', 'deps': [['a', 'y'], ['b', 'y']]}], 'plain': ['cb']},
     {'name': 'Plain', 'params': [{'name': 'a', 'default': None, 'inst': True, 'bounds': None},
                                  {'name': 'n', 'default': 1, 'inst': False, 'bounds': [0, 100]},
-                                 {'name': 'l', 'default': [1], 'inst': True, 'bounds': None}],
+                                 {'name': 'l', 'default': [1], 'inst': True, 'bounds': None},
+                                 {'name': 'choice', 'default': None, 'inst': False, 'bounds': None, 'sel': 'choice'},
+                                 {'name': 'named', 'default': None, 'inst': False, 'bounds': None, 'sel': 'named'}],
      'methods': [{'name': 'k', 'deps': [['n']]}], 'plain': ['cb']},
 ]
 MECHS = ['deepcopy', 'pickle2', 'pickle3', 'pickle4', 'pickle5']
@@ -128,6 +136,8 @@ def _check_table():
             assert bool(P.instantiate) == p['inst'], (K, p)
             assert (list(P.bounds) if getattr(P, 'bounds', None) else None) == p['bounds'], (K, p)
             assert P.default == p['default'], (K, p)
+            if p.get('sel'):
+                assert isinstance(P, param.Selector) and not P.check_on_set, (K, p)
         got = [[m[0], [[p.name] for p in m[3]] + [dd.spec.split('.') for dd in m[4]]] for m in K.param._depends['watch']]
         assert got == [[m['name'], m['deps']] for m in d['methods']], got
 
@@ -245,6 +255,15 @@ def _val(v, order, cells):
     raise RuntimeError(f'value outside the modelled universe: {v!r}')
 
 
+def _sel_view(o, name):
+    """what the object's Selector lists, read without creating the per-instance Parameter copy"""
+    P = o._param__private.params.get(name) or type(o).param[name]
+    names = P.names
+    if any(k != f'k{v}' for k, v in names.items()) or any(not isinstance(v, int) for v in P._objects):
+        raise RuntimeError(f'Selector contents outside the modelled shape: {P._objects!r} {names!r}')
+    return [list(P._objects), list(names.values())]
+
+
 def snapshot(root):
     order = _order(root)
     cells = _cells(order)
@@ -277,6 +296,8 @@ def snapshot(root):
             'values': [[p, p in priv.values, _val(getattr(o, p), order, cells)] for p in _params(o)],
             'pcopies': [[p, (list(priv.params[p].bounds) if getattr(priv.params[p], 'bounds', None) is not None else None),
                          bool(priv.params[p].constant)] for p in _params(o) if p in priv.params],
+            'sel': [[p['name'], p['name'] in priv.params] + _sel_view(o, p['name'])
+                    for p in CLASSES[PY_CLASSES.index(type(o))]['params'] if p.get('sel')],
             'attrs': [[k, _val(v, order, cells)] for k, v in sorted(o.__dict__.items()) if k != '_param__private'],
             'watchers': ws, 'dyn': dyn})
     return snap
@@ -320,6 +341,8 @@ class _Side:
             setattr(self.ref(op['o']), op['name'], self.arg(op['a']))
         elif o == 'mutAttr':
             getattr(self.ref(op['o']), op['name']).append(op['n'])
+        elif o == 'selAdd':
+            self.ref(op['o']).param[op['p']].objects[f'k{op["n"]}'] = op['n']
         elif o == 'watch':
             self.ref(op['o']).param.watch(getattr(self.ref(op['target']), op['cb']), [op['p']])
         else:
@@ -334,8 +357,19 @@ def _copy(o, mech):
     return pickle.loads(pickle.dumps(o, protocol=proto))
 
 
+def _reset_class_selectors():
+    """cases are independent: the class-level containers of the (empty-declared) Selectors start empty"""
+    for K, d in zip(PY_CLASSES, CLASSES):
+        for p in d['params']:
+            if p.get('sel'):
+                P = K.param[p['name']]
+                del P._objects[:]
+                P.names.clear()
+
+
 def run_impl(case):
     try:
+        _reset_class_selectors()
         main, twin = _Side(), _Side()
         for op in case['pre']:
             main.run(op)
@@ -420,6 +454,10 @@ def mutattr(o, name, n):
     return {'op': 'mutAttr', 'o': o, 'name': name, 'n': n}
 
 
+def seladd(o, p, n):
+    return {'op': 'selAdd', 'o': o, 'p': p, 'n': n}
+
+
 def watch(o, p, target, cb='cb'):
     return {'op': 'watch', 'o': o, 'p': p, 'target': target, 'cb': cb}
 
@@ -463,6 +501,12 @@ def directed():
         # a Sub on its own
         yield case([new(SUB, x=1), pedit(H(0), 'x', bounds=[0, 9]), setattr_(H(0), 'tag', 3)], H(0), mech,
                    [('copy', set_(CP(), 'x', 2)), ('orig', set_(H(0), 'x', 3)), ('copy', setattr_(CP(), 'tag', [1])), ('copy', mutattr(CP(), 'tag', 2))])
+        # Selectors declared without objects: the copy is taken before (and after) the original has its own Parameter copy
+        yield case([new(PLAIN)], H(0), mech,
+                   [('orig', set_(H(0), 'choice', 5)), ('copy', set_(CP(), 'choice', 6)), ('orig', seladd(H(0), 'named', 1)),
+                    ('copy', seladd(CP(), 'named', 2)), ('copy', seladd(CP(), 'named', 2)), ('orig', set_(H(0), 'choice', 5)), ('copy', pedit(CP(), 'choice', constant=False))])
+        yield case([new(TOP), set_(H(0), 'choice', 3), seladd(H(0), 'named', 4)], H(0), mech,
+                   [('copy', set_(CP(), 'choice', 7)), ('orig', seladd(H(0), 'named', 8)), ('copy', seladd(CP(), 'named', 9)), ('orig', set_(H(0), 'choice', 1))])
         # both slots, one sub-object shared by two parents
         yield case([new(SUB, x=1), new(SUB, y=2), new(TOP, a=R(H(0)), b=R(H(1))), new(TOP, a=R(H(0)))], H(2), mech, [])
 
@@ -536,6 +580,9 @@ def _random_case(rng, mech):
             nd['attrs'][name] = 'int'
             return setattr_(target_ref, name, rng.randint(1, 9))
         if r < 0.8:
+            if cls != SUB and rng.random() < 0.7:
+                return (set_(target_ref, 'choice', rng.randint(1, 6)) if rng.random() < 0.5
+                        else seladd(target_ref, 'named', rng.randint(1, 6)))
             return watch(target_ref, rng.choice(ints), target_ref)
         if cls != SUB:
             slot = rng.choice(['a', 'b'] if cls == TOP else ['a'])
@@ -632,8 +679,14 @@ def tags(case, impl):
         sets = [op for op in case['pre'] if op['op'] == 'set' and op['p'] in ('a', 'b') and op['a'] is None]
         if sets:
             t.append('pre:detached-again')
+        if any(own for o in snap for _, own, _, _ in o.get('sel', [])):
+            t.append('selector:own-copy-before-copy')
         for p, po in zip(case['post'], impl.get('post', [])):
             t.append('post:' + p['side'])
+            if p['op']['op'] == 'selAdd':
+                t.append('selector:named-after-copy')
+            if p['op']['op'] == 'set' and p['op']['p'] == 'choice':
+                t.append('selector:set-after-copy')
             if po['log']:
                 t.append('post:log-nonempty')
             if p['op']['op'] == 'set' and isinstance(p['op']['a'], dict):
